@@ -19,6 +19,15 @@ CHECKS = {
             "all limits 0..30 at k=limit-1,limit,limit+1 and seeded random 32-bit histories, and TLC (Trace_C05, W=32) "
             "judges every recorded step. Exhaustive for the model instance, sampled for the 2^64 real inputs.",
             "7 (C05)"),
+    "C08": ("model_checking",
+            "TLA+ spec (PortSem, PortObj) model-checked by TLC; TLC-generated histories replayed on live Port objects; "
+            "implementation traces validated by TLC with interval arithmetic at PMax=65535",
+            "TLC proves on the small instance (ports 1..6, operands 0..7, all 5 operators, all operand tuples up to 3, all "
+            "64 subsets) that the interval semantics equals Cisco's set definitions and that every history of the writable "
+            "views keeps the three views in agreement and makes self-assignment the identity; TLC-enumerated histories are "
+            "replayed through monotone port maps on ONE live Port object, an operand sweep (thorough: every operand "
+            "1..65535 for lt/gt) and random tuples are added, and TLC (Trace_C08) judges each recorded step.",
+            "7 (C08)"),
 }
 
 NOT_YET = {
